@@ -247,12 +247,13 @@ func c08(tier string) int {
 	if tier == "thorough" {
 		c08Uniform(run, &trans)
 	}
+	trans += c08Soak(run, u, gen, la, tier)
 	run.Set("states", len(statesSeen))
 	run.Set("transitions", trans)
 	run.Set("traces_validated_against_impl", trans)
 	run.Set("evaluations", trans)
 	run.Set("exhaustive", true)
-	run.Set("rule", fmt.Sprintf("all prior histories of <= %d events (plus one more event over a reduced set: shapes plain/ext/junk97/junk98/stale-own at sizes 0,1,4 and refused stale/fork-growth/garbage-sig, probed to s, s+1, s+2 and N) over {honest accept in shapes plain/ext/otherlog/stale-own/junk1,96,97,98,99,100 at sizes %v with an unverifiable line under the witness key name (future / ancient timestamp, legacy-shaped) and notes of exactly 4096, 16384, 65536, 999000 and 1000000 bytes at sizes 1 and 4; refused: other key, garbage signature, truncated, stale, old too large, fork at same size, fork growth with adversarial proof, bad proof}, executed on the real witness; from every reached state an honest probe (log's own signature only, old = current size, ref6962 proof, empty when sizes are equal or old size is 0) to EVERY size up to %d on a fresh replay, both stores; oracle: accepted. distinct_nontrivial = distinct accepted (store, history, target size)", depth, sizes, n))
+	run.Set("rule", fmt.Sprintf("all prior histories of <= %d events (plus one more event over a reduced set: shapes plain/ext/junk97/junk98/stale-own at sizes 0,1,4 and refused stale/fork-growth/garbage-sig, probed to s, s+1, s+2 and N) over {honest accept in shapes plain/ext/otherlog/stale-own/junk1,96,97,98,99,100 at sizes %v with an unverifiable line under the witness key name (future / ancient timestamp, legacy-shaped) and notes of exactly 4096, 16384, 65536, 999000 and 1000000 bytes at sizes 1 and 4; refused: other key, garbage signature, truncated, stale, old too large, fork at same size, fork growth with adversarial proof, bad proof}, executed on the real witness; plus long histories in one dimension: each refused request (11 kinds, an unknown log ID, and all of them in rotation) repeated %d times on one witness with an honest same-size probe after every repetition and an honest growth at the end, both stores, every call under a 60 s watchdog; from every reached state an honest probe (log's own signature only, old = current size, ref6962 proof, empty when sizes are equal or old size is 0) to EVERY size up to %d on a fresh replay, both stores; oracle: accepted. distinct_nontrivial = distinct accepted (store, history, target size)", depth, sizes, c08SoakReps(tier), n))
 	run.Assumption("the honest log is the main branch of the universe; the probe carries only the log's signature line")
 	// Fault leg: after any single storage failure the log is not wedged - the
 	// fault-free suffix of the C07 histories (honest growth) is accepted and
@@ -273,4 +274,110 @@ func lastAccepted(names []string) string {
 func c08Uniform(run *ev.Run, trans *int64) {
 	var st int
 	uniformTable(run, "C08", &st, trans)
+}
+
+func c08SoakReps(tier string) int {
+	if tier == "thorough" {
+		return 3000
+	}
+	return 300
+}
+
+// c08Soak: histories that are long in one dimension - ONE kind of refused
+// request repeated many times on the same witness (whatever a refusal leaves
+// behind per request - a slot, a handle, a counter - adds up), with an honest
+// same-size step after every repetition and an honest growth at the end.
+func c08Soak(run *ev.Run, u *uni.U, gen *wh.CPGen, la wh.LogCfg, tier string) int64 {
+	reps := c08SoakReps(tier)
+	id := la.ID()
+	m, f := u.Main, u.Forks[0]
+	const s = 4
+	big := 7
+	forged := gen.Forged(la, m, 5)
+	mk := func(b *uni.Branch, old uint64, n int, proof [][]byte, label string) wh.Req {
+		cp, meta := gen.Get(la, b, n, "plain")
+		return wh.Req{LogID: id, Old: old, CP: cp, Proof: proof, Meta: meta, Label: label}
+	}
+	unknown := mk(m, s, 6, m.Proof(s, 6), "unknown log ID")
+	unknown.LogID = uni.ID("verif.example/never-configured")
+	kinds := []struct {
+		name string
+		r    wh.Req
+	}{
+		{"other-key", forged[0]}, {"garbage-sig", forged[1]}, {"truncated", forged[2]}, {"empty", forged[3]}, {"wrong-origin", forged[4]},
+		{"unknown-log", unknown},
+		{"stale", mk(m, s+1, big, m.Proof(s+1, big), "stale old=s+1")},
+		{"old-too-large", mk(m, s+3, s, nil, "old too large")},
+		{"fork-same-size", mk(f, s, s, nil, "fork at same size")},
+		{"fork-growth", mk(f, s, big, f.Proof(s, big), "fork growth with adversarial proof")},
+		{"bad-proof", mk(m, s, big, m.Proof(s+1, big), "bad proof")},
+	}
+	var n atomic.Int64
+	var wg sync.WaitGroup
+	for _, store := range []string{"mem", "sql"} {
+		for ki := 0; ki <= len(kinds); ki++ {
+			wg.Add(1)
+			go func(store string, ki int) {
+				defer wg.Done()
+				name := "all-in-rotation"
+				if ki < len(kinds) {
+					name = kinds[ki].name
+				}
+				e := wh.NewEnv(u, wh.Config{Store: store, Logs: []wh.LogCfg{la}, Guard: true})
+				blocked := func(after string, i int) bool {
+					if !e.Blocked {
+						return false
+					}
+					run.Report("honest-step-blocked after-refusals-of="+name, fmt.Sprintf("%s store: after %d refused requests of kind %q on one witness, %s did not return within 60 s: no honest step can be taken any more", store, i, name, after), map[string]any{"kind": "refusal-soak", "store": store, "refusal": name, "repetitions": i})
+					return true
+				}
+				defer func() {
+					if !e.Blocked {
+						e.Close()
+					}
+				}()
+				if out := e.Do(mk(m, 0, s, nil, "first use")); out.Class != wh.OK {
+					ev.Internal("C08 soak: first use refused: %v", out.Err)
+				}
+				for i := 1; i <= reps; i++ {
+					r := kinds[(i-1)%len(kinds)].r
+					if ki < len(kinds) {
+						r = kinds[ki].r
+					}
+					out := e.Do(r)
+					n.Add(1)
+					if blocked("the refused request itself", i) {
+						return
+					}
+					if out.Class == wh.OK {
+						run.Report("soak-refusal-accepted kind="+name, fmt.Sprintf("%s store: request %q was accepted at repetition %d", store, r.Label, i), nil)
+						return
+					}
+					p := e.Do(mk(m, s, s, nil, "honest same-size probe"))
+					n.Add(1)
+					if blocked("the honest same-size step", i) {
+						return
+					}
+					if p.Class != wh.OK {
+						run.Report(fmt.Sprintf("honest-step-refused verdict=%s after-refusals-of=%s", p.Class, name), fmt.Sprintf("%s store: after %d refused requests of kind %q the honest same-size step was refused: %v", store, i, name, p.Err), map[string]any{"kind": "refusal-soak", "store": store, "refusal": name, "repetitions": i})
+						return
+					}
+				}
+				g := e.Do(mk(m, s, 6, m.Proof(s, 6), "honest growth probe"))
+				n.Add(1)
+				if blocked("the honest growth step", reps) {
+					return
+				}
+				if g.Class != wh.OK {
+					run.Report(fmt.Sprintf("honest-step-refused verdict=%s after-refusals-of=%s", g.Class, name), fmt.Sprintf("%s store: after %d refused requests of kind %q the honest growth 4->6 was refused: %v", store, reps, name, g.Err), map[string]any{"kind": "refusal-soak", "store": store, "refusal": name, "repetitions": reps})
+					return
+				}
+				run.Hist("soak_outcomes", name+" -> honest steps accepted throughout")
+			}(store, ki)
+		}
+	}
+	wg.Wait()
+	run.Set("soak_repetitions", reps)
+	run.Set("soak_requests", n.Load())
+	return n.Load()
 }
